@@ -105,16 +105,22 @@ def process_nodes_recursive(
     variables=None,
     mode=1,
     premium=False,
+    rule_declarations=None,
 ):
     if variables is None:
         variables = {}
+    if rule_declarations is None:
+        rule_declarations = {}
 
     for node in node_list:
         if isinstance(node, QualifiedRule):
-            # Process declarations
-            declarations = tinycss2.parse_declaration_list(
-                node.content, skip_whitespace=False, skip_comments=False
-            )
+            # Process declarations (:root/html blocks were parsed once up front and
+            # are re-serialised from that list at the end, so work on the same list)
+            declarations = rule_declarations.get(id(node))
+            if declarations is None:
+                declarations = tinycss2.parse_declaration_list(
+                    node.content, skip_whitespace=False, skip_comments=False
+                )
             valid_decls = [d for d in declarations if isinstance(d, Declaration)]
 
             modified = False
@@ -262,6 +268,7 @@ def process_nodes_recursive(
                     variables,
                     mode=mode,
                     premium=premium,
+                    rule_declarations=rule_declarations,
                 )
 
                 nested_css = tinycss2.serialize(nested_rules)
@@ -352,6 +359,7 @@ def main(path, default_bg, mode, premium):
                 variables,
                 mode=mode,
                 premium=premium,
+                rule_declarations=rule_declarations_map,
             )
 
             # Post-process: Update content of rules that had variables modified
